@@ -336,6 +336,90 @@ theorem csr_inv_monitor {env : Env} {s s' : State} {op : Op} (hI : RegInv s) (h 
     c16_csr_inv { env := env, pre := s, op := op, ok := true, post := s' } = true :=
   (regInvB_iff s').mpr (csr_inv_step hI h)
 
+/-! ## the other monitors of C16 on model transitions -/
+
+theorem at_most_one_monitor {env : Env} {s s' : State} {op : Op} (hI : RegInv s) (h : step env s op = .ok s') :
+    c16_at_most_one_nft { env := env, pre := s, op := op, ok := true, post := s' } = true := by
+  have hI' := csr_inv_step hI h
+  simp only [c16_at_most_one_nft, List.all_eq_true, Bool.or_eq_true, beq_iff_eq]
+  intro p _ q _
+  by_cases hpq : p.1 = q.1
+  · exact Or.inl hpq
+  · right
+    split
+    · rename_i r r' hr hr'
+      simp only [List.all_eq_true, Bool.not_eq_true', List.contains_eq_mem, decide_eq_false_iff_not]
+      intro c hc hc'
+      exact hpq (hI'.at_most_one hr hr' hc hc')
+    · rfl
+
+/-- the index across a whole hook invocation: nothing lost or changed, every new entry explained by a log of the receipt -/
+theorem postTx_idx {env : Env} {s s' : State} {to : Option Addr} {gu gp : Nat} {logs : List Log}
+    (hI : RegInv s) (h : postTx env s to gu gp logs = .ok s') (c : Addr) (n : Nat) :
+    (s'.nftOf c = some n → s.nftOf c = some n ∨
+      ∃ ts, s.turnstile = some ts ∧ s.params.enabled = true ∧ ∃ l ∈ logs, explains ts c n l = true) ∧
+    (s.nftOf c = some n → s'.nftOf c = some n) := by
+  obtain ⟨hidx, _⟩ := fee_distribution_preserves_registry hI h
+  have e : s'.nftOf c = (afterEvents env s logs).nftOf c := by simp only [State.nftOf, hidx]
+  rw [e]
+  unfold afterEvents
+  split
+  · exact ⟨Or.inl, id⟩
+  · rename_i hen
+    have hen : s.params.enabled = true := by
+      cases he : s.params.enabled with
+      | true => rfl
+      | false => exact absurd he hen
+    split
+    · exact ⟨Or.inl, id⟩
+    · rename_i ts hts
+      obtain ⟨f1, f2⟩ := changes_explained (env := env) (ts := ts) logs hI c n
+      refine ⟨fun hh => ?_, f2⟩
+      rcases f1 hh with h1 | h1
+      · exact Or.inl h1
+      · exact Or.inr ⟨ts, hts, hen, h1⟩
+
+theorem step_idx {env : Env} {s s' : State} {op : Op} (hI : RegInv s) (h : step env s op = .ok s') (c : Addr) (n : Nat) :
+    (s'.nftOf c = some n → s.nftOf c = some n ∨
+      ∃ ts, s.turnstile = some ts ∧ s.params.enabled = true ∧ ∃ l ∈ opLogs op, explains ts c n l = true) ∧
+    (s.nftOf c = some n → s'.nftOf c = some n) := by
+  cases op with
+  | postTx to gu gp logs => exact postTx_idx hI h c n
+  | setParams auth en share =>
+    simp only [step] at h
+    obtain ⟨_, _, h⟩ := bind_ok h
+    obtain ⟨_, _, h⟩ := bind_ok h
+    injection h with h; subst h
+    exact ⟨Or.inl, id⟩
+  | send src dst d amt =>
+    simp only [step] at h
+    obtain ⟨b, _, h⟩ := bind_ok h
+    injection h with h; subst h
+    exact ⟨Or.inl, id⟩
+
+theorem changes_explained_monitor {env : Env} {s s' : State} {op : Op} (hI : RegInv s) (h : step env s op = .ok s') :
+    c16_changes_explained { env := env, pre := s, op := op, ok := true, post := s' } = true := by
+  simp only [c16_changes_explained, Bool.and_eq_true, List.all_eq_true]
+  constructor
+  · intro p _
+    cases hn : s'.nftOf p.1 with
+    | none => rfl
+    | some n =>
+      simp only [Bool.or_eq_true, beq_iff_eq, Bool.and_eq_true, Bool.and_true, List.any_eq_true]
+      rcases (step_idx hI h p.1 n).1 hn with h1 | ⟨ts, hts, hen, l, hl, hex⟩
+      · exact Or.inl h1
+      · right
+        refine ⟨⟨by rw [hts]; rfl, hen⟩, l, hl, ?_⟩
+        rw [hts]; exact hex
+  · intro p _
+    cases hn : s.nftOf p.1 with
+    | none => simp
+    | some n =>
+      simp only [Bool.or_eq_true, beq_iff_eq]
+      right
+      exact (step_idx hI h p.1 n).2 hn
+
+
 /-! ## non-vacuity: a concrete receipt that registers, assigns, is refused, and is ignored -/
 
 def exEnv : Env := { modAddr := "m.csr", feeCollector := "m.fee_collector", evmAddr := "m.evm", zeroAddr := "zero", denom := "acanto" }
